@@ -742,6 +742,22 @@ func tblGenEntries(rng *rand.Rand, st *Stats, n int, blockSize int, prefix []byt
 			v = make([]byte, rng.Intn(blockSize+blockSize/2+1)) // straddles a block boundary
 		case 2:
 			v = make([]byte, rng.Intn(4))
+		case 3:
+			// around the growth steps of the builder's block buffer (initially BlockSize+256
+			// bytes, doubled on demand): entry sizes that just fit / just do not fit
+			if rng.Intn(3) == 0 {
+				base := (blockSize + 256) << uint(rng.Intn(3))
+				n := base - 64 + rng.Intn(80)
+				if n < 0 {
+					n = 0
+				}
+				if n > 20000 {
+					n = 20000
+				}
+				v = make([]byte, n)
+			} else {
+				v = make([]byte, rng.Intn(24))
+			}
 		default:
 			v = make([]byte, rng.Intn(24))
 		}
